@@ -22,6 +22,8 @@ import (
 // and relativises the target's URI against the referrer's base, so the
 // expected target is known by construction.
 type Universe struct {
+	HasDefaults bool
+	BadDefaultAt *Node
 	Reloc   bool // see UniOpts.Relocatable
 	Draft7  bool
 	BaseURI string // BaseURI option for resolving Docs[0]; may be ""
@@ -65,6 +67,10 @@ type Node struct {
 	// reaches this leaf.
 	Leaf    bool
 	InPlace *Edge
+	// Default, if set, is rendered as the hop's "default": an instance that follows one of the
+	// hop's own references and carries the right marker (or, for the one planted bad default, a
+	// wrong one). Resolve(ValidateDefaults) walks the reference graph with it.
+	Default any
 }
 
 // Edge is one reference.
@@ -106,6 +112,10 @@ type UniOpts struct {
 	// Relocatable: one host, no absolute $id, no absolute or network-path references, so that
 	// the whole universe can be served from another host as well (a mirror).
 	Relocatable bool
+	// Defaults: a third of the hops declare a valid default; BadDefault additionally plants one
+	// invalid default in the root document.
+	Defaults   bool
+	BadDefault bool
 }
 
 func (u *Universe) defsKey() string {
@@ -379,6 +389,30 @@ func GenUniverse(c *Ctx, o UniOpts) *Universe {
 	}
 	if o.Dangling {
 		u.plantDangling(c)
+	}
+	if o.Defaults && !o.Dangling {
+		u.HasDefaults = true
+		for _, n := range u.Nodes {
+			if n.Leaf || c.W(3) != 0 {
+				continue
+			}
+			n.Default = map[string]any{"v": n.Marker}
+			for s, e := range n.Next {
+				if e != nil && e.To != nil && c.W(2) == 0 {
+					n.Default = map[string]any{slotName[s]: map[string]any{"v": e.To.Marker}}
+					if e2 := e.To.Next[s]; e2 != nil && e2.To != nil && c.W(2) == 0 {
+						n.Default = map[string]any{slotName[s]: map[string]any{slotName[s]: map[string]any{"v": e2.To.Marker}}}
+					}
+				}
+			}
+		}
+		if o.BadDefault {
+			n := u.Docs[0].Nodes[c.W(len(u.Docs[0].Nodes))]
+			if !n.Leaf {
+				n.Default = map[string]any{"v": "not-the-marker"}
+				u.BadDefaultAt = n
+			}
+		}
 	}
 	u.render()
 	return u
@@ -661,6 +695,9 @@ func (u *Universe) renderNode(n *Node) map[string]any {
 		}
 	}
 	o["properties"] = props
+	if n.Default != nil {
+		o["default"] = n.Default
+	}
 	if n.InPlace != nil {
 		if !u.Draft7 && n.ID%2 == 0 {
 			o["$ref"] = n.InPlace.Text // 2020-12: $ref next to other keywords
